@@ -205,7 +205,7 @@ def run_c19(tier):
     t0 = time.time()
     vlib.build_wrap()
     import checks as _checks
-    _checks.DEADLINE[0] = None if tier == "quick" else time.time() + float(os.environ.get("VERIF_THOROUGH_BUDGET_S", "1500"))
+    _checks.DEADLINE[0] = None if tier == "quick" else time.time() + float(os.environ.get("VERIF_THOROUGH_BUDGET_S", "600"))
     cap = 3000 if tier == "quick" else 10000
     summ = []
     problems = []
@@ -316,7 +316,7 @@ def run_c20(tier):
     t0 = time.time()
     vlib.build_wrap()
     import checks as _checks
-    _checks.DEADLINE[0] = None if tier == "quick" else time.time() + float(os.environ.get("VERIF_THOROUGH_BUDGET_S", "1500"))
+    _checks.DEADLINE[0] = None if tier == "quick" else time.time() + float(os.environ.get("VERIF_THOROUGH_BUDGET_S", "600"))
     cap = 3000 if tier == "quick" else 10000
     from concurrent.futures import ThreadPoolExecutor
 
